@@ -13,16 +13,17 @@ uint32_t ref_crc32(const uint8_t *p, size_t n, uint32_t crc);
 
 // ---- allocator with balance counting (thread safe) --------------------------------------------------
 static atomic_long live;
-static void *c_alloc(void *o, size_t n, size_t s) { (void)o; void *p = malloc(n * s ? n * s : 1); if (p) atomic_fetch_add(&live, 1); return p; }
+static int alloc_fill = -1;	// >= 0: fresh memory is filled with this byte (two runs with different fillers must agree: nothing may depend on uninitialised memory)
+static void *c_alloc(void *o, size_t n, size_t s) { (void)o; void *p = malloc(n * s ? n * s : 1); if (p) { atomic_fetch_add(&live, 1); if (alloc_fill >= 0) memset(p, alloc_fill, n * s <= (1u << 17) ? n * s : 4096); } return p; }
 static void c_free(void *o, void *p) { (void)o; if (p) { atomic_fetch_sub(&live, 1); free(p); } }
 static const lzma_allocator AL = { c_alloc, c_free, NULL };
 
 static void on_alarm(int sig) { (void)sig; char b[2600]; int n = snprintf(b, sizeof b, "\nWATCHDOG no return within the time limit\nCRASHCASE %s (watchdog)\n", h_case); if (write(2, b, n)) {} _exit(9); }
 
 enum { EP_STREAM, EP_STREAM_C, EP_AUTO, EP_AUTO_C, EP_ALONE, EP_LZIP, EP_LZIP_C, EP_MICRO, EP_RAW_LZMA1, EP_RAW_LZMA2, EP_RAW_DELTA, EP_RAW_X86, EP_RAW_ARM64, EP_BLOCK, EP_INDEX, EP_FILEINFO, EP_MT, EP_MT_C, EP_NSTREAM,
-	EP_INDEX_BUF = EP_NSTREAM, EP_BLOCK_HEADER, EP_STREAM_HEADER, EP_STREAM_FOOTER, EP_FILTER_FLAGS, EP_PROPS, EP_VLI, EP_N };
+	EP_INDEX_BUF = EP_NSTREAM, EP_BLOCK_HEADER, EP_STREAM_HEADER, EP_STREAM_FOOTER, EP_FILTER_FLAGS, EP_PROPS, EP_VLI, EP_BLOCK_API, EP_N };
 static const char *EPN[] = { "stream_decoder", "stream_decoder+concat+tell", "auto_decoder", "auto_decoder+concat+tell", "alone_decoder", "lzip_decoder", "lzip_decoder+concat+ignore", "microlzma_decoder", "raw(lzma1)", "raw(lzma2)", "raw(delta+lzma2)", "raw(x86+lzma2)", "raw(arm64+delta+lzma2)",
-	"block_decoder", "index_decoder", "file_info_decoder", "stream_decoder_mt(2)", "stream_decoder_mt(2)+concat+failfast", "index_buffer_decode", "block_header_decode", "stream_header_decode", "stream_footer_decode", "filter_flags_decode", "properties_decode", "vli_decode" };
+	"block_decoder", "index_decoder", "file_info_decoder", "stream_decoder_mt(2)", "stream_decoder_mt(2)+concat+failfast", "index_buffer_decode", "block_header_decode", "stream_header_decode", "stream_footer_decode", "filter_flags_decode", "properties_decode", "vli_decode", "block_api(header_decode+block_buffer_decode)" };
 static lzma_options_lzma o_l; static lzma_options_delta o_d = { .type = LZMA_DELTA_TYPE_BYTE, .dist = 3 }; static lzma_filter ch[4]; static lzma_block blk; static lzma_filter blkf[LZMA_FILTERS_MAX + 1]; static lzma_index *idx_out;
 #define DEFLIMIT (40u << 20)
 static uint64_t cur_memlimit = DEFLIMIT; static size_t fi_size;
@@ -98,6 +99,20 @@ static void run_func_ep(int ep, const uint8_t *in, size_t n) {
 	case EP_STREAM_FOOTER: { if (n < LZMA_STREAM_HEADER_SIZE) break; lzma_stream_flags f; r = lzma_stream_footer_decode(&f, p + n - LZMA_STREAM_HEADER_SIZE); break; }
 	case EP_FILTER_FLAGS: { lzma_filter f = { 0, NULL }; size_t ip = 0; r = lzma_filter_flags_decode(&f, &AL, p, &ip, n); if (ip > n) FAILK("contract", "in_pos beyond in_size"); if (r != LZMA_OK && f.options) FAILK("contract", "options not NULL after error"); c_free(NULL, f.options); break; }
 	case EP_PROPS: { static const lzma_vli ids[] = { LZMA_FILTER_LZMA1, LZMA_FILTER_LZMA2, LZMA_FILTER_DELTA, LZMA_FILTER_X86, LZMA_FILTER_ARM64, LZMA_FILTER_RISCV, 0x7E }; for (int k = 0; k < 7; k++) { lzma_filter f = { ids[k], NULL }; r = lzma_properties_decode(&f, &AL, p, n); if (r != LZMA_OK && f.options) FAILK("contract", "options not NULL after error"); c_free(NULL, f.options); if (!(r == LZMA_OK || r == LZMA_OPTIONS_ERROR || r == LZMA_MEM_ERROR)) FAILK("undocumented-return", "properties_decode returned %d", r); } r = LZMA_OK; break; }
+	case EP_BLOCK_API: {	// a random-access reader: Stream Header -> lzma_block_header_decode() into an application-owned lzma_block -> lzma_block_buffer_decode(); version 0 and 1, fresh heap memory filled with 0x00 / 0xFF
+		static uint8_t bo[1 << 13]; if (n < 12 + 8) break; lzma_stream_flags sf; r = lzma_stream_header_decode(&sf, p); if (r != LZMA_OK) break; if (p[12] == 0) break;
+		lzma_ret first = LZMA_OK; size_t first_op = 0; uint64_t first_h = 0; int have = 0;
+		for (int v = 0; v < 2; v++) for (int fill = 0; fill < 2; fill++) { lzma_block b; memset(&b, 0xA5, sizeof b); b.version = (uint32_t)v; b.check = sf.check; b.filters = blkf; for (int i = 0; i <= LZMA_FILTERS_MAX; i++) { blkf[i].id = LZMA_VLI_UNKNOWN; blkf[i].options = NULL; }
+			b.header_size = lzma_block_header_size_decode(p[12]); if (12 + (size_t)b.header_size > n) break; alloc_fill = fill ? 0xFF : 0x00;
+			r = lzma_block_header_decode(&b, &AL, p + 12); if (r != LZMA_OK) { alloc_fill = -1; break; }
+			if (lzma_raw_decoder_memusage(blkf) > cur_memlimit) { lzma_filters_free(blkf, &AL); alloc_fill = -1; r = LZMA_MEMLIMIT_ERROR; break; }	// the reader's own memory limit (the Block API has none)
+			if (v == 1 && b.ignore_check) FAILK("contract", "lzma_block_header_decode left ignore_check set (block.h: always sets it to false)");
+			lzma_block c; memset(&c, 0xA5, sizeof c); c.version = 0; c.check = b.check; c.filters = blkf; c.header_size = b.header_size; c.compressed_size = b.compressed_size; c.uncompressed_size = b.uncompressed_size;
+			size_t ip = 12 + b.header_size, op = 0; r = lzma_block_buffer_decode(v ? &b : &c, &AL, p, &ip, n, bo, &op, sizeof bo); lzma_filters_free(blkf, &AL); alloc_fill = -1;
+			if (ip > n || op > sizeof bo) FAILK("contract", "position beyond the buffer"); uint64_t hh = h_fnv(bo, op, 0);
+			if (!have) { first = r; first_op = op; first_h = hh; have = 1; } else if (r != first || op != first_op || hh != first_h) FAILK("uninitialised-memory-or-version-decides", "Block API result differs between lzma_block versions / heap fillers: %d (%zu bytes) vs %d (%zu bytes)", first, first_op, r, op);
+			if (r == LZMA_BUF_ERROR) r = LZMA_OK; if (!(r == LZMA_OK || r == LZMA_DATA_ERROR || r == LZMA_OPTIONS_ERROR || r == LZMA_MEM_ERROR || r == LZMA_MEMLIMIT_ERROR)) break; }
+		break; }
 	case EP_VLI: { lzma_vli v = 0; size_t ip = 0; r = lzma_vli_decode(&v, NULL, p, &ip, n); if (ip > n) FAILK("contract", "in_pos beyond in_size"); if (r == LZMA_OK && v > LZMA_VLI_MAX) FAILK("contract", "decoded VLI out of range");
 		lzma_vli v2 = 0; size_t vp = 0, ip2 = 0; lzma_ret r2 = LZMA_OK; for (size_t i = 0; i < n && r2 == LZMA_OK; i++) { ip2 = i; r2 = lzma_vli_decode(&v2, &vp, p, &ip2, i + 1); }	// multi-call mode, one byte per call
 		if ((r == LZMA_OK) != (r2 == LZMA_STREAM_END) && n > 0 && r != LZMA_BUF_ERROR) { if (!(r == LZMA_DATA_ERROR && r2 == LZMA_DATA_ERROR)) FAILK("contract", "single-call vs multi-call vli_decode disagree (%d vs %d)", r, r2); } if (r == LZMA_OK && r2 == LZMA_STREAM_END && v != v2) FAILK("contract", "vli values differ"); if (r == LZMA_BUF_ERROR) r = LZMA_OK; break; }
@@ -121,10 +136,10 @@ static void repair_crcs(uint8_t *b, const rb_out *m) {
 		case T_SF_CRC: { uint32_t c = ref_crc32(b + off + 4, 6, 0); memcpy(b + off, &c, 4); break; } } }
 }
 static uint8_t seedb[1 << 13], mutb[1 << 13], plain[1 << 12], scratch[1 << 14]; static rb_out sm; static int seed_fmt; static char sname[80];
-static const int EPS_XZ[] = { EP_STREAM, EP_STREAM_C, EP_AUTO_C, EP_FILEINFO }, EPS_LZMA[] = { EP_ALONE, EP_AUTO, EP_AUTO_C }, EPS_LZ[] = { EP_LZIP, EP_LZIP_C, EP_AUTO_C };
+static const int EPS_XZ[] = { EP_STREAM, EP_STREAM_C, EP_AUTO_C, EP_FILEINFO, EP_BLOCK_API }, EPS_LZMA[] = { EP_ALONE, EP_AUTO, EP_AUTO_C }, EPS_LZ[] = { EP_LZIP, EP_LZIP_C, EP_AUTO_C };
 static int sh, nsh; static long unit;
 static void mutate_seed(int thorough) {
-	const int *eps = seed_fmt == 0 ? EPS_XZ : seed_fmt == 1 ? EPS_LZMA : EPS_LZ; int neps = seed_fmt == 0 ? 4 : 3; size_t n = sm.len;
+	const int *eps = seed_fmt == 0 ? EPS_XZ : seed_fmt == 1 ? EPS_LZMA : EPS_LZ; int neps = seed_fmt == 0 ? 5 : 3; size_t n = sm.len;
 	for (size_t i = 0; i < n; i++) { if (unit++ % nsh != sh) continue; if (h_expired()) return; int tag = rb_tag_at(&sm, i);
 		for (int v = 0; v < 256; v++) { if (v == seedb[i]) continue; if (!thorough && n > 400 && (v & 7) != (int)(i & 7) && v != 0 && v != 255 && v != (seedb[i] ^ 1) && v != (seedb[i] ^ 0x80)) continue;
 			for (int rep = 0; rep < 2; rep++) { if (rep && (seed_fmt != 0 || tag == T_B_DATA || tag == T_SH_CRC || tag == T_BH_CRC || tag == T_IDX_CRC || tag == T_SF_CRC || tag == T_B_CHECK || tag == T_SH_MAGIC || tag == T_SF_MAGIC)) continue;
@@ -166,7 +181,7 @@ int main(int argc, char **argv) {
 			mutate_seed(thorough); if (h_expired()) break; }
 		// the suite's own files (given on the command line): single-byte substitutions with 4 values, truncations
 		for (int a = 5; a < argc; a++) { FILE *f = fopen(argv[a], "rb"); if (!f) continue; size_t n = fread(seedb, 1, sizeof seedb, f); int more = fgetc(f) != EOF; fclose(f); if (more || n > (thorough ? 1200 : 500)) continue;
-			const char *nm = strrchr(argv[a], '/'); nm = nm ? nm + 1 : argv[a]; int fmt = strstr(nm, ".xz") ? 0 : strstr(nm, ".lzma") ? 1 : 2; const int *eps = fmt == 0 ? EPS_XZ : fmt == 1 ? EPS_LZMA : EPS_LZ; int neps = fmt == 0 ? 4 : 3;
+			const char *nm = strrchr(argv[a], '/'); nm = nm ? nm + 1 : argv[a]; int fmt = strstr(nm, ".xz") ? 0 : strstr(nm, ".lzma") ? 1 : 2; const int *eps = fmt == 0 ? EPS_XZ : fmt == 1 ? EPS_LZMA : EPS_LZ; int neps = fmt == 0 ? 5 : 3;
 			for (size_t i = 0; i < n; i++) { if (unit++ % nsh != sh) continue; if (h_expired()) goto done;
 				static const int XV[] = { 0x01, 0x80, 0xFF, 0x10 }; for (int v = 0; v < 4; v++) { memcpy(mutb, seedb, n); mutb[i] ^= XV[v]; for (int e = 0; e < neps; e++) { H_CASE("c04 file=%s byte %zu ^= %02x ep=%s", nm, i, XV[v], EPN[eps[e]]); run_ep(eps[e], mutb, n, 0); if (v == 0) run_ep(eps[e], mutb, n, 1); } }
 				for (int e = 0; e < neps; e++) { H_CASE("c04 file=%s truncate %zu ep=%s", nm, i, EPN[eps[e]]); run_ep(eps[e], seedb, i, 0); } } }
